@@ -73,7 +73,17 @@ func (c *cluster) tplLagSnap(rt *rapid.T) {
 		c.step(vAct{A: "hold", N: lag[0], S: holdPoint})
 		c.step(vAct{A: "snap", N: lag[0], K: 0})
 	}
-	down := rapid.Bool().Draw(rt, "lagByCrash") && !held
+	// or its state machine is slow: Update parked while entries are queued for it,
+	// released only after the snapshot has been installed over its log
+	fsmHeld := false
+	if !held && !c.blackbox && rapid.IntRange(0, 3).Draw(rt, "slowFSM") == 0 {
+		fsmHeld = true
+		c.step(vAct{A: "hold", N: lag[0], S: "fsm.apply"})
+		c.step(vAct{A: "upd", N: ldr, K: rapid.IntRange(2, 6).Draw(rt, "queuedForFSM"), T: 20})
+		c.step(vAct{A: "adv", T: 100})
+		c.stats.class("tpl-lagsnap-slow-fsm")
+	}
+	down := rapid.Bool().Draw(rt, "lagByCrash") && !held && !fsmHeld
 	for _, f := range lag {
 		if down {
 			c.step(vAct{A: "crash", N: f, B: true})
@@ -98,11 +108,29 @@ func (c *cluster) tplLagSnap(rt *rapid.T) {
 		c.step(vAct{A: "unhold", N: lag[0], S: holdPoint})
 		held = false
 	}
+	// sometimes whoever opens the leader's snapshot next (the replication that has
+	// to send it) is parked between reading its label and opening its file, while
+	// the leader takes a newer snapshot whose retention retires the older one
+	openHeld := false
+	if !c.blackbox && rapid.IntRange(0, 3).Draw(rt, "holdSnapshotOpen") == 0 {
+		openHeld = true
+		c.step(vAct{A: "hold", N: ldr, S: "snapopen.meta"})
+	}
 	c.step(vAct{A: "heal"})
 	for _, f := range lag {
 		if down {
 			c.step(vAct{A: "restart", N: f})
 		}
+	}
+	if openHeld {
+		c.step(vAct{A: "adv", T: 1100})
+		if c.anyLeader() == ldr {
+			c.burst(rt, ldr, rapid.IntRange(3, 12).Draw(rt, "moreForNewerSnap"), 30)
+			c.step(vAct{A: "snap", N: ldr, K: 0})
+			c.step(vAct{A: "adv", T: 600})
+			c.stats.class("tpl-lagsnap-open-held-newer-snapshot")
+		}
+		c.step(vAct{A: "unhold", N: ldr, S: "snapopen.meta"})
 	}
 	for i := 0; i < 4 && !c.failed(); i++ {
 		c.step(vAct{A: "adv", T: 1100})
@@ -113,6 +141,10 @@ func (c *cluster) tplLagSnap(rt *rapid.T) {
 	}
 	if held {
 		c.step(vAct{A: "unhold", N: lag[0], S: holdPoint})
+		c.step(vAct{A: "adv", T: 1100})
+	}
+	if fsmHeld {
+		c.step(vAct{A: "unhold", N: lag[0], S: "fsm.apply"})
 		c.step(vAct{A: "adv", T: 1100})
 	}
 }
@@ -695,7 +727,44 @@ func (c *cluster) tplFigure8(rt *rapid.T) {
 	bail()
 }
 
+// tplSnapRace: a node's snapshot goroutine is parked at one of its hook points
+// while more updates are committed and applied there; after the snapshot is
+// stored the node is restarted, i.e. restores from it and replays the suffix.
+func (c *cluster) tplSnapRace(rt *rapid.T) {
+	c.step(vAct{A: "free"})
+	c.step(vAct{A: "adv", T: 1500})
+	ldr := c.anyLeader()
+	if ldr == 0 || c.blackbox {
+		return
+	}
+	c.stats.class("tpl-snaprace")
+	x := ldr
+	if flrs := c.followersOf(ldr); len(flrs) > 0 && rapid.Bool().Draw(rt, "onFollower") {
+		x = flrs[rapid.IntRange(0, len(flrs)-1).Draw(rt, "x")]
+	}
+	c.burst(rt, ldr, rapid.IntRange(3, 25).Draw(rt, "before"), rapid.IntRange(0, 80).Draw(rt, "pad"))
+	point := []string{"snap.begin", "snap.fsmdone", "fsm.snapshot", "fsm.snapshot", "snap.premeta"}[rapid.IntRange(0, 4).Draw(rt, "point")]
+	c.step(vAct{A: "hold", N: x, S: point})
+	c.step(vAct{A: "snap", N: x, K: 0})
+	c.step(vAct{A: "adv", T: 50})
+	c.burst(rt, ldr, rapid.IntRange(1, 12).Draw(rt, "during"), 10)
+	c.step(vAct{A: "unhold", N: x, S: point})
+	c.step(vAct{A: "adv", T: 300})
+	if rapid.Bool().Draw(rt, "moreAfter") {
+		c.burst(rt, ldr, rapid.IntRange(1, 6).Draw(rt, "after"), 10)
+	}
+	if rapid.Bool().Draw(rt, "kill") {
+		c.step(vAct{A: "crash", N: x, B: rapid.Bool().Draw(rt, "fin")})
+	} else {
+		c.step(vAct{A: "stop", N: x})
+	}
+	c.step(vAct{A: "adv", T: 300})
+	c.step(vAct{A: "restart", N: x})
+	c.step(vAct{A: "adv", T: 2500})
+}
+
 var templates = map[string]func(c *cluster, rt *rapid.T){
+	"snaprace":        (*cluster).tplSnapRace,
 	"cfgrevert":       (*cluster).tplCfgRevert,
 	"figure8":         (*cluster).tplFigure8,
 	"staletimeoutnow": (*cluster).tplStaleTimeoutNow,
